@@ -17,9 +17,9 @@ import (
 // hook: a deterministic, non-repeating byte stream that records what it handed
 // out.
 type keyStream struct {
-	mu   sync.Mutex
-	ctr  uint32
-	out  []byte // everything handed out
+	mu    sync.Mutex
+	ctr   uint32
+	out   []byte // everything handed out
 	reads []int  // sizes of the Read calls
 }
 
